@@ -67,7 +67,14 @@ func (k *kase) oracleStep(ev string) {
 			if u.Healthy() != wantHealthy {
 				k.fail("healthy-disagrees-with-window", fmt.Sprintf("after %q: upstream %d Healthy()=%v but %d failures in window, max_fails %d", ev, i, u.Healthy(), live[o], c.maxFails))
 			}
-			wantFull := c.st.p && c.st.q > 0 && parked[o] >= c.st.q
+			limit := 0
+			if c.st.p {
+				limit = c.st.q
+			}
+			if i == 0 && c.st.x > 0 {
+				limit = c.st.x // an upstream's own max_requests wins over unhealthy_request_count
+			}
+			wantFull := limit > 0 && parked[o] >= limit
 			if u.Available() != (wantHealthy && !wantFull) {
 				k.fail("available-disagrees", fmt.Sprintf("after %q: upstream %d Available()=%v, want healthy=%v full=%v", ev, i, u.Available(), wantHealthy, wantFull))
 			}
@@ -90,7 +97,8 @@ func (k *kase) oracleStep(ev string) {
 // oracleCounted: which outcomes count a failure.  The harness scripted the outcome of the step,
 // so it knows (without the model) how many failures the step may have counted: none for a
 // success, a client that went away, a failing or panicking response handler or a body that
-// broke off; one per matching unhealthy_status entry for a 500; at least one for a connection
+// broke off (beyond what their status line earns); one per unhealthy_status entry matching the
+// status of any answer; at least one for a connection
 // closed before the answer (more only through retries); never any when counting is off.
 func (k *kase) oracleCounted(st step, moved *cfgGen) {
 	n := k.lastCounted
@@ -104,10 +112,8 @@ func (k *kase) oracleCounted(st step, moved *cfgGen) {
 		what = "counting is disabled in this configuration"
 	case st.op == 'A' && n != 0:
 		what = "the client went away (context.Canceled is not the upstream's failure)"
-	case st.op == 'O' && (st.out == "ok" || st.out == "hup" || st.out == "pan" || st.out == "her") && n != 0:
-		what = "the round trip succeeded (outcome " + st.out + ")"
-	case st.op == 'O' && st.out == "e5" && counting && n != moved.st.s:
-		what = fmt.Sprintf("a 500 answer matches %d unhealthy_status entries", moved.st.s)
+	case st.op == 'O' && answerStatus(st.out) != 0 && counting && n != wantStrikes(statusTable[moved.st.s], answerStatus(st.out)):
+		what = fmt.Sprintf("status %d matches %d of the unhealthy_status entries %v", answerStatus(st.out), wantStrikes(statusTable[moved.st.s], answerStatus(st.out)), statusTable[moved.st.s])
 	case st.op == 'O' && st.out == "rst" && counting && n < 1:
 		what = "the upstream closed the connection without answering"
 	case st.op == 'O' && st.out == "rst" && counting && n > 1+moved.st.r:
@@ -118,6 +124,19 @@ func (k *kase) oracleCounted(st step, moved *cfgGen) {
 	if what != "" {
 		k.fail("wrong-outcome-counted", fmt.Sprintf("step %s counted %d failure(s) but %s", st.text, n, what))
 	}
+}
+
+// wantStrikes: how many unhealthy_status entries a status code matches — an entry is either the
+// code itself or, below 100, a class (5 = 5xx).  Written from the documentation, not from
+// caddyhttp.StatusCodeMatches.
+func wantStrikes(entries []int, code int) int {
+	n := 0
+	for _, e := range entries {
+		if e == code || (e < 100 && code/100 == e) {
+			n++
+		}
+	}
+	return n
 }
 
 func (k *kase) oracleEnd() {
